@@ -81,6 +81,36 @@ def bases(tmp):
     }, (X, Y)
 
 
+def _sp_a(i): return {"f%d" % (i % 7): 1, "g%d" % (i // 4): i % 3 + 1}
+def _sp_b(i): return {"h%d" % (i % 5): 2, "f%d" % ((i * 3) % 7): 1, "z": i % 4}
+def _acts(i, c): return [0, 1, 2]
+def _rwd(i, c, a): return float((a + i) % 3 == 0)
+def _dn_a(i): return [i % 5, i % 3]
+def _dn_b(i): return [(i * 2) % 7, i % 4]
+
+
+def _siblings():
+    from coba.environments import Environments
+    from coba.learners import RandomLearner
+    return {
+        "sparse": (lambda: Environments.from_lambda(40, _sp_a, _acts, _rwd), lambda: Environments.from_lambda(40, _sp_b, _acts, _rwd)),
+        "dense": (lambda: Environments.from_lambda(40, _dn_a, _acts, _rwd), lambda: Environments.from_lambda(40, _dn_b, _acts, _rwd)),
+        "linear": (lambda: Environments.from_linear_synthetic(40, n_actions=3, n_context_features=2, n_action_features=2, seed=5),
+                   lambda: Environments.from_linear_synthetic(40, n_actions=3, n_context_features=2, n_action_features=2, seed=6)),
+        "logged": (lambda: Environments.from_lambda(40, _dn_a, _acts, _rwd).logged(RandomLearner(), seed=2),
+                   lambda: Environments.from_lambda(40, _dn_b, _acts, _rwd).logged(RandomLearner(), seed=3)),
+    }
+
+
+class _Lazy(dict):
+    def items(self):
+        if not self: self.update(_siblings())
+        return dict.items(self)
+
+
+SIBLINGS = _Lazy()
+
+
 STEPS = {
     "shuffle7": lambda e: e.shuffle(seed=7), "shuffle0": lambda e: e.shuffle(seed=0), "take30": lambda e: e.take(30), "take100s": lambda e: e.take(100, strict=True),
     "slice": lambda e: e.slice(2, 33, 2), "reservoir": lambda e: e.reservoir(20, seeds=3), "scale": lambda e: e.scale("mean", "std"), "scale10": lambda e: e.scale("min", "minmax", using=10), "scale0": lambda e: e.scale(0, "maxabs", using=10),
@@ -205,6 +235,32 @@ def run(ctx):
                 elif again != first:
                     ctx.violation("shared-prefix:reread-differs", "%s(...) on a %s()d environment yields another sequence on its second read%s  base=%s" % (sname, wrap, _first(again, first), bname), dict(base=bname, wrap=wrap, step=sname))
     ctx.extra["shared_prefix_cases"] = nshared
+    # ---- siblings: a step applied to a COLLECTION of different environments gives each of them what it gives that environment
+    #      alone - whichever sibling was read before it, and also for a pickled copy taken before anything was read (what a worker
+    #      process of an experiment receives)
+    from coba.environments import Environments
+    nsib = 0
+    for pname, (fa, fb) in sorted(SIBLINGS.items()):
+        for sname in sorted(STEPS):
+            if sname in WRAPS: continue
+            try:
+                solo = [canon(i) for i in STEPS[sname](fb())[0].read()]
+                both = STEPS[sname](fa() + fb())
+                if len(both) != 2: continue
+                try: pk = pickle.loads(pickle.dumps(both[1]))
+                except Exception: pk = None
+                for _ in both[0].read(): pass
+                r1 = [canon(i) for i in both[1].read()]
+                rp = [canon(i) for i in pk.read()] if pk is not None else None
+            except Exception:
+                continue
+            nsib += 1; ctx.case("siblings|%s|%s" % (pname, sname))
+            if r1 != solo:
+                ctx.violation("siblings:differs", "%s(...) over two environments: the second one, read after the first, yields another sequence than the same step over it alone%s  pair=%s" % (sname, _first(r1, solo), pname), dict(pair=pname, step=sname))
+            elif rp is not None and rp != solo:
+                ctx.violation("siblings:pickled-copy-differs", "%s(...) over two environments: a pickled copy of the second one (taken before any read) yields another sequence than the original object%s  pair=%s" % (sname, _first(rp, solo), pname), dict(pair=pname, step=sname))
+    ctx.extra["sibling_cases"] = nsib
+    if nsib < 20: raise RuntimeError("only %d sibling cases ran" % nsib)
     # save()/from_save(): the saved form read repeatedly
     from coba.environments import Environments
     for desc, factory in pipes[:ctx.pick(6, 30)] + [p for p in pipes[20:31]]:
